@@ -67,11 +67,13 @@ type waiter struct {
 func newWaiter(e *emu) (*waiter, error) {
 	cn, err := e.dial()
 	if err != nil {
+		noteInfra("a scenario was skipped: cannot connect a client")
 		return nil, err
 	}
 	cn.Proto = 3
 	id, err := cn.ClientID()
 	if err != nil {
+		noteInfra("a scenario was skipped: no CLIENT ID reply on a new connection")
 		cn.Close()
 		return nil, err
 	}
